@@ -6,9 +6,9 @@ set -u
 export GOFLAGS=-mod=mod GOPROXY=off GOSUMDB=off GOTOOLCHAIN=local
 ID=$1; K=$2; shift 2
 CHECKS="${*:-$ID}"
-SRC=/tmp/wt/$ID/MUTANT$K
+SRC=${MUT_ROOT:-/tmp/wt}/$ID/MUTANT$K
 [ -f $SRC/patch.diff ] || { echo "no patch at $SRC"; exit 2; }
-OUT=/verif/seeded/$ID-$K
+OUT=/verif/seeded/$ID-${MUT_TAG:-}$K
 mkdir -p $OUT
 cp $SRC/patch.diff $OUT/patch.diff; cp $SRC/demo_test.go $OUT/demo_test.go 2>/dev/null; cp $SRC/meta.json $OUT/agent-meta.json 2>/dev/null
 WT=/tmp/mut-verify-$ID-$K
